@@ -184,6 +184,7 @@ def scripted(big=False):
             O('seek_cur', f='f0', u=-2),
             O('write', f='f0', n=upc + 1),                # write after a backward seek
             O('seek_end', f='f0', u=upc),
+            O('seek_end', f='f0', u=-1), O('offset', f='f0'), O('seek_end', f='f0', u=-upc), O('offset', f='f0'), O('seek_end', f='f0', u=upc),   # behind the end (embedded-io `End(+n)`): refused, position kept
             O('read', f='f0', n=upc),                     # ends exactly at end of file
             O('read', f='f0', n=1),                       # at eof
             O('eof', f='f0'), O('length', f='f0'), O('offset', f='f0'),
